@@ -971,6 +971,13 @@ class SymKernel:
     key_strip: tuple = ()              # prefixes removed from attribute keys (`self.` …): first-generation key convention
     engine: str | None = None
     doc: str = ''
+    loop: bool = False                 # evaluate ONE generic iteration of the first top-level `for … in range(…)` loop of the function:
+                                       # everything the body assigns is havocked at loop entry (attribute state such as `pt.fuel_mass`
+                                       # is read from the attribute environment, plain locals become unknown), `if …: … break` is a
+                                       # guard (the kernel describes iterations that run to the end of the body), and the targets are
+                                       # read from the state at the end of the body
+    cond_consts: dict = field(default_factory=dict)  # source text of a condition -> True / False (the kernel fixes that branch)
+    cut_attr: dict = field(default_factory=dict)     # attribute chain ('pt.ground_speed') -> input name: an input once assigned
 
 
 class V:
@@ -1027,6 +1034,10 @@ class Returned(Exception):
         self.v = v
 
 
+class LoopDone(Exception):
+    pass
+
+
 class Sym:
     def __init__(self, spec: SymKernel):
         self.spec = spec
@@ -1037,6 +1048,7 @@ class Sym:
         self.guards: list[str] = []
         self.depth = 0
         self.params: list[str] = []
+        self.in_loop = False
 
     # ---- names
     def fresh(self, base: str) -> str:
@@ -1237,6 +1249,8 @@ class Sym:
 
     def test(self, t: ast.AST, env: dict):
         text = ast.unparse(t)
+        if text in self.spec.cond_consts:
+            return bool(self.spec.cond_consts[text])
         if text not in self.spec.cond_inputs and self.spec.cond_inputs:
             text = self.norm_text(t, env)
         if text in self.spec.cond_inputs:
@@ -1615,6 +1629,10 @@ class Sym:
             ch = self.chain(t)
             if ch:
                 key = '.'.join(ch)
+                if key in self.spec.cut_attr:
+                    n = self.spec.cut_attr[key]
+                    env[key] = R(lean_ident(n), frozenset([n]))   # from here on an input of the kernel
+                    return
                 env[key] = self.named(key.replace('.', '_'), v)
             return
         if isinstance(t, ast.Subscript):
@@ -1650,6 +1668,9 @@ class Sym:
         only_raise = all(isinstance(b, (ast.Raise, ast.Expr)) for b in st.body) and any(isinstance(b, ast.Raise) for b in st.body)
         if only_raise and not st.orelse:
             self.guards.append(ast.unparse(st.test))
+            return False
+        if self.in_loop and not st.orelse and any(isinstance(b, (ast.Break, ast.Continue)) for b in st.body):
+            self.guards.append('loop exit: ' + ast.unparse(st.test))
             return False
         try:
             c = self.test(st.test, env)
@@ -1693,6 +1714,10 @@ class Sym:
         raise Returned(self.merge(c, r1, r2, 'result'))
 
     def forget(self, n: str, env: dict, why: str):
+        if n in self.spec.cut_attr:
+            m = self.spec.cut_attr[n]
+            env[n] = R(lean_ident(m), frozenset([m]))    # a cut attribute: an input from here on
+            return
         if n in self.spec.cut:
             env[n] = R(lean_ident(n), frozenset([n]))   # a cut variable: an input from here on
             return
@@ -1723,6 +1748,10 @@ class Sym:
             env[k] = self.merge(c, a, b, k.replace('.', '_'))
 
     def for_stmt(self, st: ast.For, env: dict):
+        if (self.spec.loop and not self.in_loop and self.depth == 0 and isinstance(st.iter, ast.Call)
+                and isinstance(st.iter.func, ast.Name) and st.iter.func.id == 'range'):
+            self.generic_iteration(st, env)
+            raise LoopDone()
         it = self.ev(st.iter, env)
         items = None
         if isinstance(it, Tv):
@@ -1741,6 +1770,33 @@ class Sym:
             else:
                 self.assign(st.target, x, env)
             self.block(st.body, env)
+
+    def generic_iteration(self, st: ast.For, env: dict):
+        """one iteration of `for v in range(…)` from an arbitrary loop state (see SymKernel.loop)"""
+        inputs = {(i if isinstance(i, str) else i[0]) for i in self.spec.inputs}
+        for n in sorted(self.assigned(st.body)):
+            if '[' in n:
+                n = n.split('[', 1)[0]
+            if '.' in n:
+                root = n.split('.', 1)[0]
+                for k in [k for k in env if k == n or k.startswith(n + '.')]:
+                    del env[k]
+                if not isinstance(env.get(root), Ov):
+                    env[root] = Ov(root)
+            elif n in self.spec.cut_obj:
+                env[n] = Uv('loop-carried object (assigned later in the body)')
+            elif n in inputs or n in self.spec.cut:
+                env[n] = R(lean_ident(n), frozenset([n]))
+            else:
+                env[n] = Uv('loop-carried local')
+        if isinstance(st.target, ast.Name):
+            v = st.target.id
+            env[v] = R(lean_ident(v), frozenset([v])) if v in inputs else Uv('loop variable')
+        self.in_loop = True
+        try:
+            self.block(st.body, env)
+        finally:
+            self.in_loop = False
 
     # ---- driver
     def translate(self, optional_env: bool = False) -> tuple[str, list, list]:
@@ -1782,6 +1838,8 @@ class Sym:
             self.block(fn.body, env)
         except Returned as r:
             result = r.v
+        except LoopDone:
+            pass
         # resolve the target path
         parts = spec.target.split('/')
         head = parts[0]
@@ -1818,7 +1876,7 @@ class Sym:
         body = ''.join(f'  let {n} : {ty} := {ex}\n' for n, ty, ex in keep)
         text = f'def {spec.name}{a}{binders} : α :=\n{body}  {r.e}\n'
         sig = inputs + [(n, 'bool') for n in self.spec.cond_inputs.values()]
-        return text, sig, list(self.attr_keys)
+        return text, sig, [k for k in self.attr_keys if f'(A "{k}")' in text]
 
 
 # --------------------------------------------------------------------------- symbolic kernels
@@ -1845,6 +1903,23 @@ for _t in ('clm_start_altitude', 'crz_start_altitude', 'des_start_altitude', 'de
 SYM_KERNELS.append(SymKernel('legacy_starting_mass', LEG, 'LegacyBuilder.calc_starting_mass', [], 'return', cut_obj=('perf',)))
 SYM_KERNELS.append(SymKernel('legacy_total_fuel_mass', LEG, 'LegacyBuilder.calc_starting_mass', [], 'self.total_fuel_mass',
                              cut_obj=('perf',)))
+# loop bodies of the legacy builder (C02): one generic iteration of the level-change loop and of the cruise loop
+_LVL = dict(cut_obj=('perf', 'perf_end', 'pt'), cut=('delta_altitude',), loop=True)
+for _t in ('pt.fuel_mass', 'pt.aircraft_mass', 'pt.ground_distance', 'pt.flight_time', 'seg_fuel', 'pt.altitude'):
+    SYM_KERNELS.append(SymKernel('lvl_step_' + _t.split('.')[-1], LEG, 'LegacyBuilder._fly_level_change',
+                                 ['i', 'start_altitude', 'delta_altitude', 'ground_speed'], _t,
+                                 cut_attr={'pt.ground_speed': 'ground_speed'}, **_LVL))
+SYM_KERNELS.append(SymKernel('lvl_step_ground_speed_still_air', LEG, 'LegacyBuilder._fly_level_change',
+                             ['i', 'start_altitude', 'delta_altitude'], 'pt.ground_speed',
+                             cond_consts={'self.weather is None': True}, **_LVL))
+_CRZ = dict(cut_obj=('perf', 'pt'), cut=('ground_distance_step',), loop=True)
+for _t in ('pt.fuel_mass', 'pt.aircraft_mass', 'pt.ground_distance', 'pt.flight_time', 'pt.true_airspeed'):
+    SYM_KERNELS.append(SymKernel('crz_step_' + _t.split('.')[-1], LEG, 'LegacyBuilder.fly_cruise',
+                                 ['ground_distance_step', 'ground_speed'], _t,
+                                 cut_attr={'pt.ground_speed': 'ground_speed'}, **_CRZ))
+SYM_KERNELS.append(SymKernel('crz_step_ground_speed_still_air', LEG, 'LegacyBuilder.fly_cruise',
+                             ['ground_distance_step'], 'pt.ground_speed',
+                             cond_consts={'self.weather is not None': False}, **_CRZ))
 SYM_KERNELS.append(SymKernel('weather_ground_speed', 'weather.py', 'Weather.get_ground_speed',
                              ['true_airspeed', 'heading_rad', 'wind_u', 'wind_v'], 'return',
                              cut=('heading_rad', 'wind_u', 'wind_v')))
